@@ -203,7 +203,7 @@ func famPipeline(dir string, seed int64, tier string) {
 	for len(inputs) < 40 {
 		t := randType(r, 1+r.Intn(3))
 		v := randGoValue(r, t, 3)
-		if hasBadMapKey(v) || hasTiedKeys(v) {
+		if hasBadMapKey(v) || hasTiedKeys(v) || hasCompositeIfaceKey(v) {
 			continue
 		}
 		ts, err := marshalTokens(v.Interface(), nil)
